@@ -45,8 +45,8 @@ def plan(tier, seed):
                 N = int(rng.integers(4 * K, 16 * K + 8)) if kind != 'cbmm' else int(rng.integers(3 * K, 8 * K))
             real = kind in models.REAL
             dtype = ('f32' if real else 'c64') if rng.uniform() < 0.2 else ('f64' if real else 'c128')
-            init = ['dirichlet:1', 'dirichlet:0.1', 'dirichlet:10', 'onehot', 'blur:0.3', 'num_classes', 'singleton'][int(rng.integers(0, 7))]
-            if init == 'onehot' and N < K:
+            init = ['dirichlet:1', 'dirichlet:0.1', 'dirichlet:10', 'onehot', 'blur:0.3', 'num_classes', 'singleton', 'onehot:bool', 'onehot:int'][int(rng.integers(0, 9))]
+            if init.startswith('onehot') and N < K:
                 init = 'dirichlet:1'
             if init == 'singleton' and not lead:
                 init = 'dirichlet:1'
@@ -56,6 +56,25 @@ def plan(tier, seed):
             iters = int(rng.choice([1, 2, 3, 5, 10])) if kind != 'cbmm' else int(rng.choice([1, 2, 3]))
             cases.append(dict(lane='fit', kind=kind, cls='gauss' if cls == 'short' else cls, K=K, N=N, D=D, lead=lead, dtype=dtype,
                               init=init, iters=iters, opts=o, rs=[seed, 1, i]))
+            i += 1
+    # single precision throughout (complex64 / float32 data with an array start) on rank-deficient classes in the largest dimensions,
+    # short fits: products of floored eigenvalues / tiny norms leave the float32 range here and nowhere else, and a degenerate last
+    # M-step is returned to the caller instead of tripping an assertion in the next one
+    for kind in models.KINDS:
+        for r in range((S(tier, 12, 120) if kind in ('cacgmm', 'gcacgmm', 'vmfcacgmm') else S(tier, 4, 40)) if kind != 'cbmm' else S(tier, 2, 12)):
+            cls = ['dup', 'short', 'lowrank', 'zeros'][r % 4]
+            K = int(rng.integers(2, 4))
+            D = int(rng.choice([6, 7, 8, 8])) if kind != 'cbmm' else int(rng.integers(3, 5))
+            lead = [int(rng.choice([1, 3]))] if kind in models.INTEGRATION else [[], [2]][int(rng.integers(0, 2))]
+            N = int(rng.choice([1, 2, 3, D - 1])) if cls == 'short' else int(rng.integers(4 * K, 8 * K))
+            o = scen.sample_opts(rng, kind, lead)
+            if r % 2:
+                o.pop('eigenvalue_floor', None)         # the default floor (1e-10): five floored eigenvalues leave the float32 range
+            init = ['onehot', 'blur:0.3', 'dirichlet:1', 'blur:0.01'][int(rng.integers(0, 4))]
+            if init.startswith('onehot') and N < K:
+                init = 'dirichlet:1'
+            cases.append(dict(lane='fit', kind=kind, cls='gauss' if cls == 'short' else cls, K=K, N=N, D=D, lead=lead,
+                              dtype='f32' if kind in models.REAL else 'c64', init=init, iters=int(rng.choice([1, 1, 2])), opts=o, rs=[seed, 4, i]))
             i += 1
     n_init = S(tier, 60, 600)
     for r in range(n_init):
@@ -186,7 +205,9 @@ def run_init(case, R):
     shape = (*lead, K, N)
     try:
         if which == 'flag':
-            minimum = 0.0 if rng.uniform() < 0.3 else float(rng.uniform(1e-6, 1) * (1 / K) * 0.999)
+            # "every minimum in (0, 1/K)": linear draws never come near zero, so half of the positive draws are log-uniform
+            u = rng.uniform()
+            minimum = 0.0 if u < 0.2 else (float(rng.uniform(1e-6, 1) * (1 / K) * 0.999) if u < 0.6 else float(10 ** rng.uniform(-200, np.log10(0.999 / K))))
             if K == 1:
                 minimum = 0.0
             a = ini.deterministic.flag(Y, K, permutation_free=True, minimum=minimum)
@@ -225,7 +246,8 @@ def run_init(case, R):
             assigned = np.take_along_axis(a, lab[..., None, :], axis=-2)[..., 0, :]
             others = a.copy()
             np.put_along_axis(others, lab[..., None, :], np.nan, axis=-2)
-            dev_o = float(np.nanmax(np.abs(others - minimum))) if K > 1 else 0.0
+            # "non-assigned classes get exactly the minimum": relative to the minimum itself (a tiny minimum must not vanish)
+            dev_o = float(np.nanmax(np.abs(others - minimum))) / minimum if K > 1 else 0.0
             dev_a = float(np.abs(assigned - (1 - (K - 1) * minimum)).max())
             R.check('C01.init', dev_o <= 1e-12 and dev_a <= 1e-12, 'init/flag/minimum',
                     f'flag(minimum={minimum}): non-assigned deviate {dev_o:.2e}, assigned deviates {dev_a:.2e}', K=K, minimum=minimum)
